@@ -363,6 +363,9 @@ func init() {
 				}, func() []Item {
 					return items(map[string]int64{"steps": 1, "ops": 2}, map[string]int64{"steps": 2, "ops": 2}, map[string]int64{"steps": 3, "ops": 1})
 				})},
+			{Name: "C01_work", Pkg: "zzh", Func: "H_C01_work", Reach: []string{"done"},
+				What:  "work measure: interpreted-instruction count of a back-propagation over a doubling stack (h <- h+h) and a ladder at depth 2d vs depth d; natively a depth-40 doubling stack within 10 s",
+				Items: tiered(func() []Item { return items(map[string]int64{"depth": 6}) }, func() []Item { return items(map[string]int64{"depth": 6}, map[string]int64{"depth": 8}) })},
 			{Name: "C01_ladder", Pkg: "zzh", Func: "H_C01_ladder", Reach: []string{"done"},
 				What: "ladder y <- y*y + y of depth d: total derivative, bounded rule applications (symbolic), depth-22 finishes in 10 s (native replay)",
 				Items: tiered(func() []Item { return items(map[string]int64{"depth": 2}, map[string]int64{"depth": 4}) }, func() []Item {
@@ -595,6 +598,7 @@ var c08OpNames = []string{
 	"Scale", "Pow", "Exp", "Log", "Sin", "Cos", "Tan", "Sinh", "Cosh", "Tanh",
 	"Transpose", "Reshape", "UnSqueeze", "Squeeze", "Flatten", "Broadcast", "Slice",
 	"ReshapeSame", "FlattenLast", "BroadcastSame", "SliceWhole", "PatchWhole", "PatchFull",
+	"VarAlongOne", "StdAlongOne", "MaxAlongOne", "SumAlongOne",
 	"SumAlong", "MaxAlong", "MinAlong", "AvgAlong", "VarAlong", "StdAlong", "MeanAlong",
 	"Add", "Sub", "Mul", "Div", "ElMax", "ElMin", "Dot", "MatMul", "Patch", "Concat2", "Concat3",
 	"Eq", "Ne", "Gt", "Ge", "Lt", "Le",
